@@ -92,6 +92,14 @@ impl Snapshot {
         None
     }
 
+    /// Verification hook: all (table, row-sets) of this snapshot.
+    #[cfg(feature = "verif")]
+    pub fn verif_rowsets(&self) -> Vec<(u32, Vec<u32>)> {
+        (self.rowsets.iter())
+            .map(|(t, s)| (*t, s.iter().copied().collect()))
+            .collect()
+    }
+
     pub fn get_rowsets_of(&self, table_id: u32) -> Option<&HashSet<u32>> {
         if let Some(rowset) = self.rowsets.get(&table_id) {
             return Some(rowset);
@@ -197,6 +205,8 @@ impl VersionManager {
                 .truncate(true)
                 .open(&temp_manifest_path)
                 .await?;
+            #[cfg(feature = "verif")]
+            crate::verif::persist("manifest.tmp.create.post", &temp_manifest_path);
         }
         // Write to tempfile
         let epoch = {
@@ -206,8 +216,15 @@ impl VersionManager {
         };
         // Rename this tempfile to manifest
         let manifest_path = manifest_dir_path.join(MANIFEST_FILE_NAME);
+        #[cfg(feature = "verif")]
+        crate::verif::persist("manifest.rename.pre", &manifest_path);
         tokio::fs::rename(&temp_manifest_path, &manifest_path).await?;
+        #[cfg(feature = "verif")]
+        crate::verif::persist("manifest.rename.post", &manifest_path);
         manifest.reopen(&manifest_path).await?;
+        #[cfg(feature = "verif")]
+        crate::verif::persist("manifest.reopen.post", &manifest_path);
+
         Ok(epoch)
     }
 
@@ -293,7 +310,11 @@ impl VersionManager {
         }
 
         // Persist the change onto the disk.
+        #[cfg(feature = "verif")]
+        crate::verif::gate("vm.commit.after_snapshot").await;
         manifest.append(&entries).await?;
+        #[cfg(feature = "verif")]
+        crate::verif::gate("vm.commit.after_append").await;
 
         // Add epoch number and make the modified snapshot available.
         let mut inner = self.inner.lock();
@@ -319,6 +340,28 @@ impl VersionManager {
             inner: self.inner.clone(),
             tx: self.tx.clone(),
         })
+    }
+
+    /// Verification hook: (current epoch, [(pinned epoch, [(table, rowset)])], pending deletions).
+    #[cfg(feature = "verif")]
+    #[allow(clippy::type_complexity)]
+    pub fn verif_state(&self) -> (u64, Vec<(u64, Vec<(u32, u32)>)>, Vec<(u64, Vec<(u32, u32)>)>) {
+        let inner = self.inner.lock();
+        let pinned = (inner.ref_cnt.keys())
+            .map(|e| {
+                let mut rs = vec![];
+                if let Some(s) = inner.status.get(e) {
+                    for (t, set) in s.verif_rowsets() {
+                        rs.extend(set.into_iter().map(|r| (t, r)));
+                    }
+                }
+                (*e, rs)
+            })
+            .collect();
+        let pending = (inner.rowset_deletion_to_apply.iter())
+            .map(|(e, v)| (*e, v.clone()))
+            .collect();
+        (inner.epoch, pinned, pending)
     }
 
     pub fn get_rowset(&self, table_id: u32, rowset_id: u32) -> Arc<DiskRowset> {
@@ -374,8 +417,21 @@ impl VersionManager {
                 .path
                 .join(format!("{}_{}", table_id, rowset_id));
             info!("vacuum {}_{}", table_id, rowset_id);
+            #[cfg(feature = "verif")]
+            {
+                // (pinned epochs are reported so that a harness can check that no pinned
+                // version still contains the row-set being removed)
+                crate::verif::event("vacuum.rowset", &format!("{table_id}_{rowset_id}"));
+                crate::verif::gate("vm.vacuum.before_unlink").await;
+            }
+            #[cfg(feature = "verif")]
+            let verif_path = path.clone();
             if !self.storage_options.disable_all_disk_operation {
+                #[cfg(feature = "verif")]
+                crate::verif::persist("vacuum.unlink.pre", &verif_path);
                 tokio::fs::remove_dir_all(path).await?;
+                #[cfg(feature = "verif")]
+                crate::verif::persist("vacuum.unlink.post", &verif_path);
             }
         }
 
